@@ -29,7 +29,7 @@ P = {
    text="Every data/weight array over the stated alphabets up to length 5 (6), f64/f32/i32/i64, all layout pairs: result compared with the exact rational value (integers: exact equality incl. the type's own division, also for the axis forms; floats: |err| <= c*n*u*sum|terms|); a wide-magnitude alphabet 1e-300..1e300 for mean / harmonic / geometric mean. Axis forms on shapes up to 5-D; data and weights that are views of one buffer (different strides, transpose, overlapping, a lane of the matrix as axis weights).",
    note="Exhaustive over an alphabet, not over all floats; overflow/underflow regimes outside the alphabet. Bound constants are textbook forward-error bounds with margin >= 4 over the worst observed ratio (reported in evidence).", ref="4/C06"),
  "C07": dict(engine=E1, technique="exhaustive enumeration over data x weight x ddof x order x offset alphabets against exact rational arithmetic with forward-error bounds of the documented algorithms (corrected two-pass moments, West's weighted variance)",
-   text="All data arrays over the alphabet at offsets 0..1e8 up to length 5 (6), all weight vectors over {0,.25,1,3} with positive total, ddof {0,.5,1}, orders 0..8, a size sweep up to 1100 (4100) elements and extreme scales: central moments, weighted variance/std, skewness, kurtosis and axis forms compared with exact rational values.",
+   text="All data arrays over the alphabet at offsets 0..1e8 up to length 5 (6), all weight vectors over {0,.25,1,3} with positive total, ddof {0,.5,1}, orders 0..8, a size sweep up to 1100 (4100) elements and extreme scales: central moments, weighted variance/std, skewness, kurtosis and axis forms compared with exact rational values. Extreme weight ratios (weights 1e-100..1e20 next to data 1e30 / 1e200; f32 analogue) against the exact value with the one-pass algorithm's bound, and one negative weight with positive running sums.",
    note="Exhaustive over an alphabet; bounds as stated in DESIGN 4/C07; worst observed ratio reported in evidence.", ref="4/C07"),
  "C08": dict(engine=E1, technique="exhaustive enumeration of all small matrices over a value alphabet (x offsets, ddof, layouts) plus structured larger families, against exact rational covariance/correlation with forward-error bounds, and metamorphic affine/sign invariances",
    text="All (r,o) matrices up to 3x3 / 2x4 over {-1,0,.5,2} at offsets {0,1e6}, ddof in {0,1,.5,o-.25}, C/F/transposed/stepped/reversed layouts, f64 and f32, and structured families up to 8x64; Pearson invariance under rescaling by 2, .5x+1, 3x-10, 1e-9, 1e-13, 1e9 and sign flips.",
@@ -38,22 +38,22 @@ P = {
    text="Every pair of arrays over the alphabet, every pairing of layouts for the two operands (1-D, 2-D complete; covering in 3-D/4-D), owned/view/view_mut/Arc/Cow operands, i32/i64/f64/BigInt: all ten measures compared with exact values; symmetry and identity laws; operands aliasing one buffer (different strides, transpose, overlapping windows). Infinite elements and overflowing squares (all pairs of length <= 3 over {0,1,+-BIG,+-inf}) against the IEEE value of the documented formulas.",
    note="Exhaustive over an alphabet and the layout generator's space.", ref="4/C09"),
  "C10": dict(engine=E1, technique="exhaustive enumeration of p, q vectors over an alphabet incl. zeros and NaN x independent layouts, against exactly summed per-term f64 values; algebraic identities checked on the same cases",
-   text="All p, q of length 1..5 over {0,.1,.25,.5,1,2,NaN} and all normalised vectors over eighths up to length 4, all layout pairs in 1-D..3-D, a size sweep up to 1100 (4100), tiny entries, aliasing operands, f64/f32.",
+   text="All p, q of length 1..5 over {0,.1,.25,.5,1,2,NaN} and all normalised vectors over eighths up to length 4, all layout pairs in 1-D..3-D, a size sweep up to 1100 (4100), tiny entries, aliasing operands, f64/f32. The alphabet also holds -0.0 and a subnormal (1e-310 / 1e-40); the KL quotient of the reference is formed in the element type.",
    note="Exhaustive over an alphabet; ln evaluated in f64 by the oracle per term (the property's own 'within roundoff of the exactly summed terms').", ref="4/C10"),
  "C11": dict(engine=E2, technique="explicit-state BFS (stateright) over all observation histories up to a depth, each transition executing the real Histogram::add_observation; states canonicalised on (grid, counts); reference cell map and bulk-vs-incremental differential evaluated on every transition before deduplication",
-   text="All grids of 1..3 axes from a menu of edge sets (incl. zero-bin, unsorted, duplicate edges), all insertion sequences of observations from every region class (below, on each edge, inside each bin, above) up to depth 7-8 (9-10; 5 (7) for three-axis grids): counts equal the reference map after every step, rejected inserts change nothing, counts shape equals grid shape, matrix form equals incremental form in both memory orders. Edge lists reach Edges through Vec, fresh Array1 and narrowed / stepped owned Array1, rotating per axis.",
+   text="All grids of 1..3 axes from a menu of edge sets (incl. zero-bin, unsorted, duplicate edges), all insertion sequences of observations from every region class (below, on each edge, inside each bin, above) up to depth 7-8 (9-10; 5 (7) for three-axis grids): counts equal the reference map after every step, rejected inserts change nothing, counts shape equals grid shape, matrix form equals incremental form in both memory orders. Edge lists reach Edges through Vec, fresh Array1 and narrowed / stepped owned Array1, rotating per axis. Grids with a 12-edge axis (depth 4/3/2).",
    note="Exhaustive to the stated depth over the action menu; canonicalisation is exact because Histogram has only (grid, counts) as state.", ref="4/C11"),
  "C12": dict(engine=E1, technique="exhaustive enumeration of all small data sets over awkward-value alphabets x 5 strategies, plus every n up to 10^4 over a (min,max,quartile) menu, with a termination watchdog; edge laws checked on the real build()/n_bins()",
    text="All arrays of length 1..6 over integer and N64 alphabets, every n <= 2000 (10^4) for Sqrt/Rice/Sturges and n <= 600 + sparse for FD/Auto over a menu of (min,max) pairs incl. adjacent floats and huge offsets; integer data in the upper part of the type range (u8, i16, i32, u32); GridBuilder + histogram totals in 1..3 columns. Pairs whose range added back to the minimum overshoots the maximum; integer data with an IQR of one unit; the last bin must start at or below the maximum (tolerance-free); a strategy accepting data with a non-positive width is a violation.",
    note="Exhaustive over the alphabet / parameter menu; a stalled call is reported by a watchdog after 60 s.", ref="4/C12"),
  "C13": dict(engine=E1, technique="exhaustive enumeration of every edge collection up to 5 elements (complete by the comparison-only argument) x all probe classes, against a linear-scan reference; all Grid index tuples",
-   text="Every sequence of length 0..6 (7) over 6 values, via From<Vec> and From<Array1> (fresh, narrowed, stepped, reversed owned arrays), probes below/on/between/above every edge, i32 and N64; Bins and Grid accessors cross-checked with points presented as owned arrays and reversed / stepped views.",
+   text="Every sequence of length 0..6 (7) over 6 values, via From<Vec> and From<Array1> (fresh, narrowed, stepped, reversed owned arrays), probes below/on/between/above every edge, i32 and N64; Bins and Grid accessors cross-checked with points presented as owned arrays and reversed / stepped views. NotNone<i32> (the crate's own ordered wrapper) as element type, judged through a key projection.",
    note="Complete up to the size bound.", ref="4/C13"),
  "C14": dict(engine=E1, technique="exhaustive enumeration of missing-value masks x weak-order patterns x axes x layouts x pivot sequences; oracle = filter then plain reference",
-   text="Every mask x every pattern on the remaining elements up to length 5 in 1-D (all pivots), n-D shapes x every axis x all layouts; f64, f32, Option<i32>; all skip-NaN entry points. After one pivot sequence of the first call per case the same call and a per-axis fold are repeated on the array as the first call left it.",
+   text="Every mask x every pattern on the remaining elements up to length 5 in 1-D (all pivots), n-D shapes x every axis x all layouts; f64, f32, Option<i32>; all skip-NaN entry points. After one pivot sequence of the first call per case the same call and a per-axis fold are repeated on the array as the first call left it. The per-axis skip-NaN fold is compared as a sequence (index order), not as a multiset.",
    note="Complete up to the 1-D bound; n-D exhaustive over layouts x finite content family.", ref="4/C14"),
  "C15": dict(engine=E1, technique="exhaustive enumeration of all weak-order patterns up to length 8 (9) x every pivot position x view strides on the real partition_mut, against a rank-count reference; both build profiles",
-   text="All inputs (comparison-only argument) of length 1..8, every pivot position, strides {1,2,-1,3,-2}, three element types incl. type extremes and a non-Copy type; long arrays up to 2100 (4200) elements: returned index == number of strictly smaller elements, partition post-condition, no panic (multiset and guard cells are observed and counted; reporting them is C03's). Fourth element type: NotNone<i32>, the crate's own hand-written ordered wrapper.",
+   text="All inputs (comparison-only argument) of length 1..8, every pivot position, strides {1,2,-1,3,-2}, three element types incl. type extremes and a non-Copy type; long arrays up to 2100 (4200) elements: returned index == number of strictly smaller elements, partition post-condition, no panic (multiset and guard cells are observed and counted; reporting them is C03's). Fourth element type: NotNone<i32>, the crate's own hand-written ordered wrapper. Fifth element type: [i64; 3] (wider than two machine words).",
    note="Complete up to the length bound.", ref="4/C15"),
  "C16": dict(engine=E1, technique="stateless DFS over all pivot sequences for every in-range and out-of-range request on arrays of length 0..6, in builds with and without debug assertions / overflow checks; oracle: must / must not unwind",
    text="Every weak-order pattern of length 0..6 (7), get/partition at every in-range position and six out-of-range ones, bulk selection with out-of-range entries mixed in at every position; request lists of 33..130 entries; Bins::index and Grid::index over all small edge sets and index tuples incl. wrong arity and positions next to usize::MAX and 2^63. Call histories: every sequence of 2 calls from a menu of 80 and every sequence of 3 bulk calls on one thread (the verdict of a call must not depend on earlier calls).",
@@ -62,13 +62,13 @@ P = {
    text="Every Result-returning public routine of the anchored files x first-input shapes x second-input relation x q lists x axes x element types x layouts: variant and payload must match the decision function; never a panic; zero total weight on non-empty inputs is not an error.",
    note="Full table over the stated shape menu.", ref="4/C17"),
  "C18": dict(engine=E1, technique="exhaustive enumeration of request lists (all lists of length 0..4 over a q pool, one of 32) x patterns x layouts x pivot sequences; every bulk execution compared with every single-item execution",
-   text="Bulk quantiles vs single quantiles, bulk selection vs single selection, central_moments vs central_moment bit for bit, axis forms of the weighted family vs whole-array routine per lane; 2-3 long lanes per bulk call; long lanes under adversarial pivot policies. Axis forms on shapes up to 5-D, ddof {0, .5, 1}, equal non-unit weights.",
+   text="Bulk quantiles vs single quantiles, bulk selection vs single selection, central_moments vs central_moment bit for bit, axis forms of the weighted family vs whole-array routine per lane; 2-3 long lanes per bulk call; long lanes under adversarial pivot policies. Axis forms on shapes up to 5-D, ddof {0, .5, 1}, equal non-unit weights. For n <= 4 every request list of n and n+1 positions with repeats.",
    note="Complete over the request-list space stated; pivots all for N<=4, deviation-bounded above.", ref="4/C18"),
  "C19": dict(engine=E1, technique="exhaustive enumeration of patterns x all ordered q pairs of the grid x strategies x pivot sequences; oracle-free order laws (monotonicity, bounds, strategy ordering, permutation and relabelling invariance)",
    text="Every multiset of ranks up to size 5 (6) x every arrangement, i8/i64/N64 tables (spread, extremes, 2x+1, beyond 2^53), all q pairs from the boundary grid, both profiles. Short bulk requests: every list of one or two (half of three) q values from seven, in any order, for n = 2..9.",
    note="Complete up to the length bound over the q grid.", ref="4/C19"),
  "C20": dict(engine=E1, technique="exhaustive enumeration of every representation (all layouts x ownership kinds x static/dynamic dimensionality) of canonical arrays for every public routine; differential against the canonical result / exact oracle",
-   text="For each routine and each canonical array in 1-D..4-D: every layout of the generator, owned/view/view_mut/Arc/Cow, IxN/IxDyn; second operands and weights in a different (when possible contiguous) memory order. Fallible calls (empty axes, invalid q, empty request lists) must have the same outcome for dynamic / static / shared / column-major / copy-on-write representations; binary routines on two views of one buffer must equal the same call on separate copies.",
+   text="For each routine and each canonical array in 1-D..4-D: every layout of the generator, owned/view/view_mut/Arc/Cow, IxN/IxDyn; second operands and weights in a different (when possible contiguous) memory order. Fallible calls (empty axes, invalid q, empty request lists) must have the same outcome for dynamic / static / shared / column-major / copy-on-write representations; binary routines on two views of one buffer must equal the same call on separate copies. Request lists handed over as reversed views.",
    note="Exhaustive over the representation generator for fixed canonical contents.", ref="4/C20"),
 }
 
@@ -107,7 +107,7 @@ def main():
             {"name": "E2", "path": "mc/src/bin/c11.rs", "serves_properties": ["C11"], "kind_free_text": "stateright 0.31 breadth-first explicit-state search; every transition executes the real Histogram::add_observation"},
         ],
         "checks": checks,
-        "notes": "All checks: exit 0 = held on everything explored, exit 1 + VIOLATION line = violation, exit 2 = machinery failure. Every check runs its harness in two build profiles (release; release + debug assertions + overflow checks), except C08 whose quick tier runs release only and C02 whose quick tier runs the checked build on two sub-harnesses. known_findings.json lists recorded defects (open: K1 for C01/C19, K2 for C17) and repaired ones (fixed: D1-D6). seeded/ holds 218 property-breaking changes with demonstrations; seeded/RESULTS.md records which checks detect which. COVERAGE.md lists every sub-harness with its bounds and measured counts.",
+        "notes": "All checks: exit 0 = held on everything explored, exit 1 + VIOLATION line = violation, exit 2 = machinery failure. Every check runs its harness in two build profiles (release; release + debug assertions + overflow checks), except C08 whose quick tier runs release only and C02 whose quick tier runs the checked build on two sub-harnesses. known_findings.json lists recorded defects (open: K1 for C01/C19, K2 for C17) and repaired ones (fixed: D1-D7). seeded/ holds 266 property-breaking changes with demonstrations; seeded/RESULTS.md records which checks detect which. COVERAGE.md lists every sub-harness with its bounds and measured counts.",
         "not_applicable": na,
     }
     with open(os.path.join(VERIF, "MANIFEST.json"), "w") as f:
